@@ -353,3 +353,623 @@ def selftest():
 
 if __name__ == "__main__":
     print(selftest())
+
+
+# ====================================================================== statement-level reference model
+#
+# A statement is a JSON value  {"op": mnemonic, "sz": attribute or "", "args": [arg...]}  with
+#   ["i", value, fmt]      integer literal           ["f", text]          floating point literal
+#   ["s", tokens]          "string"                  ["c", tokens]        'character constant / string'
+#   ["q"]                  ?  (reservation)          ["dup", n, [args]]   n DUP (args)      (Intel style)
+#   ["rep", n, arg]        [n]arg                    (Motorola style repeat count)
+#
+# The model returns a list of layout elements in target units:
+#   ("pad",)               one padding byte (PADDING), data or reserved like the statement itself
+#   ("b", bytes)           bytes (byte-granular targets)         ("r", n)       n reserved bytes
+#   ("w", [words])         words (word-granular targets)         ("rw", n)      n reserved words
+# or raises Invalid(kind) when the manual demands an error, or Unsettled when the manual does not settle
+# the outcome (the caller then stops checking that slot).
+
+class Unsettled(Exception):
+    pass
+
+
+# Zero in extended precision: the sign and the all-zero significand are compared, the exponent field is not
+# (the golden images of the repository store 0.0 with the exponent of 2^-1023; both decode to zero).
+EXT_ZERO_MASK = (0x8000 << 64) | ((1 << 64) - 1)
+
+
+TARGETS = {
+    # big: byte order of multi-byte fields; pad_default: PADDING default; slot: slot width in target units
+    "68000": dict(cpu="68000", syntax="moto", pc="*", gran=1, fam="moto16", big=True, pad_default=True,
+                  has_padding=True, base=0x10000, slot=0x400, maxlen=0x180),
+    "6809": dict(cpu="6809", syntax="moto", pc="*", gran=1, fam="moto8+16", big=True, pad_default=False,
+                 has_padding=True, base=0x1000, slot=0x200, maxlen=0xc0),
+    "6502": dict(cpu="6502", syntax="moto", pc="*", gran=1, fam="moto8", big=False, pad_default=False,
+                 has_padding=False, base=0x1000, slot=0x200, maxlen=0xc0),
+    "z80": dict(cpu="z80", syntax="intel", pc="$", gran=1, fam="intel", big=False, pad_default=False,
+                has_padding=False, base=0x1000, slot=0x200, maxlen=0xc0),
+    "8086": dict(cpu="8086", syntax="intel", pc="$", gran=1, fam="intel", big=False, pad_default=False,
+                 has_padding=False, base=0x1000, slot=0x200, maxlen=0xc0),
+    "8051": dict(cpu="8051", syntax="intel", pc="$", gran=1, fam="intel", big=False, pad_default=False,
+                 has_padding=False, has_bigendian=True, base=0x1000, slot=0x200, maxlen=0xc0),
+    "msp430": dict(cpu="msp430", syntax="intel", pc="$", gran=1, fam="msp", big=False, pad_default=False,
+                   has_padding=True, base=0x1000, slot=0x200, maxlen=0xc0),
+    "16c84": dict(cpu="16c84", syntax="moto", pc="*", gran=2, fam="pic", big=False, pad_default=False,
+                  has_padding=False, base=0x10, slot=0x18, maxlen=0xc, minroom=5),
+    "avr": dict(cpu="atmega128", syntax="c", pc="*", gran=2, fam="avr", big=False, pad_default=False,
+                has_padding=False, has_packing=True, base=0x100, slot=0x100, maxlen=0x60),
+    "cop8": dict(cpu="cop87l84", syntax="c", pc=".", gran=1, fam="intel", big=False, pad_default=False,
+                 has_padding=False, base=0x100, slot=0xc0, maxlen=0x50),
+    "320c25": dict(cpu="320c25", syntax="intel", pc="$", gran=2, fam="ti", big=False, pad_default=False,
+                   has_padding=False, base=0x100, slot=0x100, maxlen=0x60),
+}
+
+MOTO_SIZES = {"B": 1, "W": 2, "L": 4, "Q": 8, "C": 2, "S": 4, "D": 8, "X": 12, "": 2}
+MOTO_FLOAT = {"C": HALF, "S": SINGLE, "D": DOUBLE, "X": "ext"}
+INTEL_BITS = {"dn": 4, "db": 8, "dw": 16, "dd": 32, "dq": 64, "dt": 80, "defb": 8, "defw": 16,
+              "byte": 8, "addr": 8, "word": 16, "addrw": 16}        # the last four: COP8 aliases of DB/DW
+COP8_ENDIAN = {"byte": False, "word": False, "addr": True, "addrw": True}
+INTEL_FLOAT = {16: HALF, 32: SINGLE, 64: DOUBLE, 80: "ext"}
+
+
+class State:
+    def __init__(self, tgt):
+        self.tgt = tgt
+        self.t = TARGETS[tgt]
+        # The default of PADDING is not relied upon (manual: off except for 680x0; behaviour and the golden
+        # tests t_msppad/t_avr8: on for MSP430, 6809, ...): generated programs always state it explicitly.
+        self.padding = self.t["pad_default"]
+        self.big = self.t["big"]
+        self.packing = False
+        self.cmap = CharMap()
+
+    def directive(self, d):
+        k = d["dir"]
+        if k == "padding":
+            self.padding = bool(d["on"])
+        elif k == "bigendian":
+            self.big = bool(d["on"])
+        elif k == "packing":
+            self.packing = bool(d["on"])
+        elif k == "charset":
+            self.cmap.apply(d["op"])
+        else:
+            raise ValueError(d)
+
+
+def float_bytes(x, fmt, big):
+    """bytes of the float field; fmt 'ext' -> 10 bytes"""
+    if fmt == "ext":
+        b = ext_canonical(x)
+        return b if big else b[::-1]
+    st = float_status(x, fmt)
+    if st == "band":
+        raise Unsettled("float above max finite that still rounds to it")
+    return ieee_bytes(x, fmt, big)
+
+
+def _is_res(arg):
+    k = arg[0]
+    if k == "q":
+        return True
+    if k == "rep":
+        return _is_res(arg[2])
+    return False
+
+
+def _leaf_kinds(args, out):
+    """set of {'res','const'} over all leaves (DUP recursion)"""
+    for a in args:
+        k = a[0]
+        if k == "q":
+            out.add("res")
+        elif k == "dup":
+            _leaf_kinds(a[2], out)
+        elif k == "rep":
+            _leaf_kinds([a[2]], out)
+        else:
+            out.add("const")
+    return out
+
+
+class Sim:
+    """reference interpreter of data definition statements for one target"""
+
+    def __init__(self, tgt, syms=None):
+        self.st = State(tgt)
+        self.t = self.st.t
+        self.fam = self.t["fam"]
+        self.syms = syms if syms is not None else []     # [[value, forward?], ...] referenced by ["y", index]
+
+    # ---------------------------------------------------------------- element values
+
+    def _int_or_char(self, arg, maxchars):
+        """value of an integer-like argument, or None if it is a string that is laid down char by char"""
+        k = arg[0]
+        if k == "i":
+            return arg[1]
+        if k == "y":
+            return self.syms[arg[1]][0]
+        if k == "c":
+            codes = str_codes(arg[1])
+            if len(codes) <= maxchars:
+                if len(codes) > 4:
+                    raise Unsettled("multi character constant longer than 4 characters")
+                return multichar_value(codes, self.st.cmap)
+        return None
+
+    def _chars(self, arg):
+        return self.st.cmap.map(str_codes(arg[1]))
+
+    # ---------------------------------------------------------------- Motorola DC / DS
+
+    def _moto_dc(self, stmt, pc):
+        sz = stmt["sz"].upper()
+        if sz == "" and self.fam != "moto16":
+            # DC section: "the default attribute is W"; assembler-usage: "omission of an attribute generally
+            # leads to the usage of the natural operand size of a processor family" (8 bit CPUs: B)
+            raise Unsettled("DC without attribute on an 8 bit CPU")
+        size = MOTO_SIZES[sz]
+        ffmt = MOTO_FLOAT.get(sz)
+        kinds = _leaf_kinds(stmt["args"], set())
+        out = []
+        if self.st.padding and (pc & 1) and size != 1:
+            out.append(("pad",))
+        if kinds == {"res", "const"}:
+            raise Invalid("mix", "? mixed with constants")
+        for arg in stmt["args"]:
+            rep = 1
+            if arg[0] == "rep":
+                rep, arg = arg[1], arg[2]
+                if rep < 1:
+                    raise Unsettled("repeat count < 1")
+            k = arg[0]
+            if k == "q":
+                out.append(("r", rep * size))
+                continue
+            if ffmt:
+                if k == "f":
+                    x = float(arg[1])
+                elif k == "i":
+                    if abs(arg[1]) >= 1 << 53:
+                        raise Unsettled("integer not exactly convertible")
+                    x = float(arg[1])
+                else:
+                    raise Unsettled("string argument of a floating point DC")
+                if ffmt == "ext":
+                    b = ext_canonical(x)
+                    b = b[:2] + b"\0\0" + b[2:]          # 96 bit memory format of the 6888x
+                    if x == 0:                           # zero: sign and significand only (EXT_ZERO_MASK)
+                        out.append(("b", b * rep, (b"\x80\x00" + b"\xff" * 10) * rep))
+                        continue
+                else:
+                    if float_status(x, ffmt) == "over":
+                        raise Invalid("range", "float too large")
+                    b = float_bytes(x, ffmt, True)
+                out.append(("b", b * rep))
+                continue
+            if k == "f":
+                raise Invalid("type", "float in integer DC")
+            v = self._int_or_char(arg, size)
+            if v is not None:
+                out.append(("b", int_field(v, size, True) * rep))
+            else:
+                b = b"".join(int_field(c, size, True) for c in self._chars(arg))
+                out.append(("b", b * rep))
+        return out
+
+    def _moto_ds(self, stmt, pc):
+        sz = stmt["sz"].upper()
+        if sz == "" and self.fam != "moto16":
+            raise Unsettled("DS without attribute on an 8 bit CPU")
+        size = MOTO_SIZES[sz]
+        n = stmt["args"][0][1]
+        out = []
+        if self.st.padding and (pc & 1) and size != 1:
+            out.append(("pad",))
+            pc += 1
+        if n < 0:
+            raise Unsettled("negative count")
+        if n == 0:
+            if sz not in ("W", "L", "Q", "S", "D", ""):
+                raise Unsettled("DS.%s 0" % sz)
+            out.append(("r", (-pc) % size))
+        else:
+            out.append(("r", n * size))
+        return out
+
+    # ---------------------------------------------------------------- BYT/FCB, ADR/FDB, FCC, DFS/RMB
+
+    def _moto8(self, stmt, pc):
+        op = stmt["op"].lower()
+        big = self.st.big
+        out = []
+        if op in ("dfs", "rmb"):
+            n = stmt["args"][0][1]
+            if n < 1 or n > 0xffff:
+                raise Unsettled("count")
+            return [("r", n)]
+        if self.st.padding and op in ("adr", "fdb") and (pc & 1):
+            raise Unsettled("16 bit object at an odd address with PADDING ON outside DC")
+        for arg in stmt["args"]:
+            rep = 1
+            if arg[0] == "rep":
+                rep, arg = arg[1], arg[2]
+                if rep < 1:
+                    raise Unsettled("repeat count < 1")
+            k = arg[0]
+            if k == "q":
+                raise Unsettled("? is documented for DC only")
+            if k == "f":
+                raise Invalid("type", "float")
+            if op == "fcc":
+                if k != "s":
+                    raise Unsettled("FCC takes strings")
+                out.append(("b", bytes(self._chars(arg)) * rep))
+                continue
+            size = 1 if op in ("byt", "fcb", "byte") else 2
+            v = self._int_or_char(arg, size)
+            if v is not None:
+                out.append(("b", int_field(v, size, big) * rep))
+            else:
+                out.append(("b", b"".join(int_field(c, size, big) for c in self._chars(arg)) * rep))
+        return out
+
+    # ---------------------------------------------------------------- Intel DN/DB/DW/DD/DQ/DT with DUP, DS
+
+    def _intel_elems(self, args, bits, depth=0, nofloat=False):
+        """flat list of elements: ('v', pattern of `bits` bits) or ('r',)"""
+        out = []
+        for arg in args:
+            k = arg[0]
+            if k == "dup":
+                n = arg[1]
+                if n < 1:
+                    raise Unsettled("DUP count < 1")
+                out += self._intel_elems(arg[2], bits, depth + 1, nofloat) * n
+            elif k == "q":
+                out.append(("r",))
+            elif k == "f":
+                ffmt = INTEL_FLOAT.get(bits)
+                if ffmt is None:
+                    raise Invalid("type", "float in DN/DB")
+                if nofloat:
+                    raise Unsettled("float in a COP8 alias of DW (manual: alias; behaviour: integers only)")
+                x = float(arg[1])
+                if ffmt == "ext":
+                    out.append(("v", int.from_bytes(ext_canonical(x), "big"), EXT_ZERO_MASK if x == 0 else None))
+                else:
+                    if float_status(x, ffmt) == "over":
+                        raise Invalid("range", "float too large")
+                    if float_status(x, ffmt) == "band":
+                        raise Unsettled("float band")
+                    out.append(("v", ieee_bits(x, ffmt)))
+            else:
+                if bits == 4 and k not in ("i", "y"):
+                    raise Unsettled("DN takes integers")
+                v = self._int_or_char(arg, min(bits // 8, 8) if bits >= 8 else 0)
+                if v is None:
+                    if bits == 80:
+                        raise Unsettled("string in DT")
+                    for c in self._chars(arg):
+                        out.append(("v", int_bits(c, bits)))
+                elif bits == 80:
+                    if abs(v) >= 1 << 53 or k != "i":
+                        raise Unsettled("integer in DT")
+                    out.append(("v", int.from_bytes(ext_canonical(float(v)), "big"), EXT_ZERO_MASK if v == 0 else None))
+                elif bits == 64:
+                    if not -(1 << 63) < v < (1 << 63):
+                        raise Unsettled("64 bit literal outside the signed range")
+                    out.append(("v", v & ((1 << 64) - 1)))
+                else:
+                    out.append(("v", int_bits(v, bits)))
+        return out
+
+    def _intel(self, stmt, pc):
+        op = stmt["op"].lower()
+        gran = self.t["gran"]
+        big = self.st.big
+        if self.st.tgt == "cop8":
+            if op in COP8_ENDIAN:
+                big = COP8_ENDIAN[op]
+            if op in ("dsb", "dsw"):
+                n = stmt["args"][0][1]
+                if n < 1 or n > 0x7fff:
+                    raise Unsettled("count")
+                return [("r", n * (2 if op == "dsw" else 1))]
+            if op in ("fb", "fw"):
+                n = stmt["args"][0][1]
+                if n < 1 or n > 0x200:
+                    raise Unsettled("count")
+                a = stmt["args"][1]
+                if a[0] == "f":
+                    raise Invalid("type", "float")
+                v = self._int_or_char(a, 0)
+                if v is None:
+                    raise Unsettled("fill value")
+                return [("b", int_field(v, 2 if op == "fw" else 1, False) * n)]
+        if op == "ds":
+            n = stmt["args"][0][1]
+            if n < 1:
+                raise Unsettled("count")
+            return [("r", n)] if gran == 1 else [("rw", n)]
+        bits = INTEL_BITS[op]
+        kinds = _leaf_kinds(stmt["args"], set())
+        if kinds == {"res", "const"}:
+            raise Invalid("mix", "? mixed with constants")
+        elems = self._intel_elems(stmt["args"], bits, 0, self.st.tgt == "cop8" and op in COP8_ENDIAN)
+        res = kinds == {"res"}
+        unit = 8 * gran                       # bits per addressable unit
+        if bits < unit:
+            per = unit // bits
+            nunits = (len(elems) + per - 1) // per
+            if res:
+                return [("r" if gran == 1 else "rw", nunits)]
+        elif res:
+            return [("r" if gran == 1 else "rw", (bits // unit) * len(elems))]
+        full = (1 << bits) - 1
+        vals = self._intel_pack([e[1] for e in elems], bits, gran, big)
+        masks = None
+        if any(len(e) > 2 and e[2] is not None for e in elems):
+            masks = self._intel_pack([(e[2] if len(e) > 2 and e[2] is not None else full) for e in elems],
+                                     bits, gran, big)
+        if gran == 1:
+            return [("b", bytes(vals), bytes(masks) if masks else None)]
+        return [("w", vals, masks)]
+
+    @staticmethod
+    def _intel_pack(pats, bits, gran, big):
+        """list of `bits` wide patterns -> list of addressable units (bytes or 16 bit words)"""
+        unit = 8 * gran
+        out = []
+        if bits >= unit:
+            # whole units per element; multi-unit elements in target order
+            per = bits // unit
+            for p in pats:
+                us = [(p >> (unit * i)) & ((1 << unit) - 1) for i in range(per)]     # least significant first
+                out += us[::-1] if big else us
+            return out
+        # several elements per unit: the least significant part is filled first on little endian targets,
+        # a partly filled last unit is padded (with zero)
+        per = unit // bits
+        for u in range(0, len(pats), per):
+            acc = 0
+            for j, p in enumerate(pats[u:u + per]):
+                pos = (per - 1 - j) if big else j
+                acc |= p << (bits * pos)
+            out.append(acc)
+        return out
+
+    # ---------------------------------------------------------------- MSP430 BYTE / WORD / BSS
+
+    def _msp(self, stmt, pc):
+        op = stmt["op"].lower()
+        if op == "bss":
+            n = stmt["args"][0][1]
+            if n < 1 or n > 0x7fff:
+                raise Unsettled("count")
+            return [("r", n)]
+        out = []
+        if op == "word":
+            if pc & 1:
+                if not self.st.padding:
+                    raise Unsettled("WORD at an odd address with PADDING OFF")
+                out.append(("pad",))
+        for arg in stmt["args"]:
+            k = arg[0]
+            if k == "f":
+                raise Invalid("type", "float")
+            if k not in ("i", "s", "c", "y"):
+                raise Unsettled("argument kind")
+            if op == "byte":
+                v = self._int_or_char(arg, 1)
+                if v is not None:
+                    out.append(("b", int_field(v, 1, False)))
+                else:
+                    out.append(("b", bytes(self._chars(arg))))
+            else:
+                if k not in ("i", "y"):
+                    raise Unsettled("WORD takes integers")
+                out.append(("b", int_field(self._int_or_char(arg, 0), 2, False)))
+        return out
+
+    # ---------------------------------------------------------------- PIC DATA / RES / ZERO
+
+    def _pic(self, stmt, pc):
+        op = stmt["op"].lower()
+        if op in ("res", "zero"):
+            n = stmt["args"][0][1]
+            if n < 1 or n > 0x1000:
+                raise Unsettled("count")
+            return [("rw", n)] if op == "res" else [("w", [0] * n)]
+        words = []
+        for arg in stmt["args"]:
+            k = arg[0]
+            if k == "f":
+                raise Invalid("type", "float")
+            if k == "c" and len(arg[1]) == 2:
+                raise Unsettled("two characters against a 14 bit word")
+            v = self._int_or_char(arg, 1)
+            if v is not None:
+                words.append(int_bits(v, 14))
+            else:
+                words += self._chars(arg)          # one character per word
+        return [("w", words)]
+
+    # ---------------------------------------------------------------- AVR DATA / RES
+
+    def _avr(self, stmt, pc):
+        op = stmt["op"].lower()
+        if op == "res":
+            n = stmt["args"][0][1]
+            if n < 1 or n > 0x7fff:
+                raise Unsettled("count")
+            return [("rw", n)]
+        if op != "data":
+            return self._intel(stmt, pc)
+        words = []
+        half = []                              # pending low byte
+
+        def put_byte(b):
+            if half:
+                words.append(half.pop() | (b << 8))
+            else:
+                half.append(b)
+
+        def flush():
+            if half:
+                words.append(half.pop())
+
+        for arg in stmt["args"]:
+            k = arg[0]
+            if k == "f":
+                raise Invalid("type", "float")
+            if k == "c" and len(arg[1]) == 2 and self.st.packing:
+                raise Unsettled("two character constant with PACKING ON")
+            v = self._int_or_char(arg, 1 if self.st.packing else 2)
+            if v is None:
+                for c in self._chars(arg):     # strings are always packed, LSB first
+                    put_byte(c)
+            elif self.st.packing:
+                put_byte(int_bits(v, 8))
+            else:
+                flush()
+                words.append(int_bits(v, 16))
+        flush()
+        return [("w", words)]
+
+    # ---------------------------------------------------------------- TMS320C25 WORD/LONG/FLOAT/DOUBLE/STRING/RSTRING/DATA/BSS/RES
+
+    def _ti(self, stmt, pc):
+        op = stmt["op"].lower()
+        if op in ("bss", "res"):
+            n = stmt["args"][0][1]
+            if n < 1 or n > 0x7fff:
+                raise Unsettled("count")
+            return [("rw", n)]
+        words = []
+        if op in ("string", "rstring"):
+            bs = []
+            for arg in stmt["args"]:
+                if arg[0] == "f":
+                    raise Invalid("type", "float")
+                v = self._int_or_char(arg, 1)
+                if v is not None:
+                    bs.append(int_bits(v, 8))
+                else:
+                    bs += self._chars(arg)
+            for i in range(0, len(bs), 2):
+                a, b = bs[i], (bs[i + 1] if i + 1 < len(bs) else 0)
+                words.append((a << 8) | b if op == "string" else (b << 8) | a)
+            return [("w", words)]
+        for arg in stmt["args"]:
+            k = arg[0]
+            if op in ("float", "double"):
+                if k == "f":
+                    x = float(arg[1])
+                elif k == "i" and abs(arg[1]) < (1 << 53):
+                    x = float(arg[1])
+                else:
+                    raise Unsettled("argument of FLOAT/DOUBLE")
+                fmt = SINGLE if op == "float" else DOUBLE
+                if float_status(x, fmt) == "over":
+                    raise Invalid("range", "float too large")
+                if float_status(x, fmt) == "band":
+                    raise Unsettled("float band")
+                bits = ieee_bits(x, fmt)
+                for i in range(2 if op == "float" else 4):      # least significant word first
+                    words.append((bits >> (16 * i)) & 0xffff)
+                continue
+            if k == "f":
+                raise Invalid("type", "float")
+            if op == "data":
+                if k == "c" and len(arg[1]) == 2:
+                    pass                                   # two characters fill the 16 bit word: 'AB' == $4142
+                v = self._int_or_char(arg, 2)
+                if v is not None:
+                    words.append(int_bits(v, 16))
+                else:
+                    cs = self._chars(arg)                  # two characters per word, LSB first
+                    for i in range(0, len(cs), 2):
+                        words.append(cs[i] | ((cs[i + 1] if i + 1 < len(cs) else 0) << 8))
+                continue
+            if k not in ("i", "y"):
+                raise Unsettled("WORD/LONG take integers")
+            v = self._int_or_char(arg, 0)
+            if op == "word":
+                words.append(int_bits(v, 16))
+            elif op == "long":
+                b = int_bits(v, 32)
+                words += [b & 0xffff, b >> 16]             # LoWord-HiWord
+            else:
+                raise ValueError(op)
+        return [("w", words)]
+
+    # ---------------------------------------------------------------- dispatch
+
+    def layout(self, stmt, pc):
+        op = stmt["op"].lower()
+        fam = self.fam
+        if op in ("dc", "ds") and fam in ("moto16", "moto8+16"):
+            return self._moto_dc(stmt, pc) if op == "dc" else self._moto_ds(stmt, pc)
+        if fam in ("moto8", "moto8+16") and op in ("byt", "fcb", "byte", "adr", "fdb", "fcc", "dfs", "rmb"):
+            return self._moto8(stmt, pc)
+        if fam == "intel" and (op in INTEL_BITS or op in ("ds", "dsb", "dsw", "fb", "fw")):
+            if self.st.tgt != "cop8" and op in ("byte", "word", "addr", "addrw", "dsb", "dsw", "fb", "fw"):
+                raise ValueError("COP8 only: " + op)
+            return self._intel(stmt, pc)
+        if fam == "ti":
+            return self._ti(stmt, pc)
+        if fam == "msp" and op in ("byte", "word", "bss"):
+            return self._msp(stmt, pc)
+        if fam == "pic" and op in ("data", "res", "zero"):
+            return self._pic(stmt, pc)
+        if fam == "avr" and (op in ("data", "res") or op in INTEL_BITS):
+            return self._avr(stmt, pc)
+        raise ValueError("statement %r not modelled for %s" % (op, self.st.tgt))
+
+    def place(self, elems, pc, mem, anyval, masks=None):
+        """apply layout elements at pc (target units); fills mem {byte address: value} and the set of byte
+        addresses whose value is not settled (padding bytes of targets that do not document it); returns new pc"""
+        gran = self.t["gran"]
+        if masks is None:
+            masks = {}
+        reserve_only = all(e[0] in ("r", "rw", "pad") for e in elems) and any(e[0] in ("r", "rw") for e in elems)
+        for e in elems:
+            k = e[0]
+            if k == "pad":
+                if not reserve_only:
+                    mem[pc] = 0
+                    if self.fam != "msp":
+                        anyval.add(pc)
+                pc += 1
+            elif k == "b":
+                for i, b in enumerate(e[1]):
+                    mem[pc + i] = b
+                    if len(e) > 2 and e[2] is not None and e[2][i] != 0xff:
+                        masks[pc + i] = e[2][i]
+                pc += len(e[1])
+            elif k == "r":
+                pc += e[1]
+            elif k == "w":
+                for i, w in enumerate(e[1]):
+                    mem[2 * (pc + i)] = w & 0xff
+                    mem[2 * (pc + i) + 1] = (w >> 8) & 0xff
+                    if len(e) > 2 and e[2] is not None and e[2][i] != 0xffff:
+                        masks[2 * (pc + i)] = e[2][i] & 0xff
+                        masks[2 * (pc + i) + 1] = (e[2][i] >> 8) & 0xff
+                pc += len(e[1])
+            elif k == "rw":
+                pc += e[1]
+            else:
+                raise ValueError(e)
+        assert gran in (1, 2)
+        return pc
+
+
+def layout_len(elems):
+    n = 0
+    for e in elems:
+        n += 1 if e[0] == "pad" else (len(e[1]) if e[0] in ("b", "w") else e[1])
+    return n
